@@ -33,6 +33,17 @@ type TaskSpec struct {
 	Globs []string `json:"globs,omitempty"`
 	Deps  []string `json:"deps,omitempty"` // task dependencies
 	NCmds int      `json:"ncmds"`
+	// Writes are side effects of the task's first command: it rewrites the content of existing
+	// files, which may be dependencies of other tasks of the same run. A task that rewrites one
+	// of its OWN dependencies is not judged itself (whether "its inputs" are those before or
+	// after its own run is left open); the other tasks still are.
+	Writes []FileWrite `json:"writes,omitempty"`
+}
+
+// FileWrite is a side effect of a task command.
+type FileWrite struct {
+	File    string `json:"file"`
+	Content string `json:"content"`
 }
 
 // Step is one action of a history.
@@ -83,11 +94,16 @@ type recorder struct {
 	calls []call
 	count map[string]int
 	fail  map[string]int
+	// onStart is called when the first command of a task runs (side effects, snapshots)
+	onStart func(task string)
 }
 
 func (r *recorder) Run(cmd string, _ iostream.IOStream, taskName string, _ []string) (shell.Result, error) {
 	idx := r.count[taskName]
 	r.count[taskName]++
+	if idx == 0 && r.onStart != nil {
+		r.onStart(taskName)
+	}
 	status := 0
 	if fi, ok := r.fail[taskName]; ok && fi == idx {
 		status = 1
@@ -164,8 +180,11 @@ type runResult struct {
 	rec     *recorder
 }
 
-func doRun(root, src string, st Step) runResult {
+func doRun(root, src string, st Step, onStart ...func(string)) runResult {
 	rec := &recorder{count: map[string]int{}, fail: st.Fail}
+	if len(onStart) > 0 {
+		rec.onStart = onStart[0]
+	}
 	tree, err := parser.New(src).Parse()
 	if err != nil {
 		return runResult{err: fmt.Errorf("harness: generated spokfile does not parse: %w", err), rec: rec}
@@ -273,11 +292,80 @@ func execCache(id string, s *ev.Shard, root string, c CacheCase) *rp.Fail {
 			if err != nil {
 				return &rp.Fail{Sig: "harness", Msg: err.Error()}
 			}
-			now := map[string]snapshot{}
-			for _, t := range c.Tasks {
-				now[t.Name] = takeSnapshot(root, entries, t)
+			// Snapshots are taken per "epoch": a task's side effects on other tasks' dependency
+			// files start a new epoch, and every task is judged against the files as they were
+			// when spok looked at it (its position in the run order).
+			takeAll := func(entries []model.Entry) map[string]snapshot {
+				m := map[string]snapshot{}
+				for _, t := range c.Tasks {
+					m[t.Name] = takeSnapshot(root, entries, t)
+				}
+				return m
 			}
-			rr := doRun(root, src, st)
+			epochs := []map[string]snapshot{takeAll(entries)}
+			startEpoch := map[string]int{}
+			selfModified := map[string]bool{}
+			var hookErr error
+			rr := doRun(root, src, st, func(name string) {
+				startEpoch[name] = len(epochs) - 1
+				sp := specs[name]
+				if len(sp.Writes) == 0 {
+					return
+				}
+				for _, w := range sp.Writes {
+					for _, l := range sp.Files {
+						if l == w.File && cur[w.File].exists && cur[w.File].content != w.Content {
+							selfModified[name] = true
+						}
+					}
+					for _, g := range sp.Globs {
+						if model.Match(g, w.File) && cur[w.File].exists && cur[w.File].content != w.Content {
+							selfModified[name] = true
+						}
+					}
+					// only the content of existing files is rewritten: which files a glob denotes is
+					// fixed per invocation (spok expands globs once per run), and files appearing in
+					// the middle of a run are outside the histories the properties quantify over
+					if !cur[w.File].exists {
+						continue
+					}
+					if err := apply(w.File, fileState{exists: true, content: w.Content}); err != nil {
+						hookErr = err
+					}
+				}
+				if ents, err := model.Walk(root); err == nil {
+					epochs = append(epochs, takeAll(ents))
+				} else {
+					hookErr = err
+				}
+			})
+			if hookErr != nil {
+				return &rp.Fail{Sig: "harness", Msg: hookErr.Error()}
+			}
+			// the epoch in force when each task was decided
+			now := map[string]snapshot{}
+			cur := 0
+			decided := map[string]bool{}
+			for _, r := range rr.results {
+				if e, ok := startEpoch[r.Task]; ok {
+					cur = e
+				}
+				now[r.Task] = epochs[cur][r.Task]
+				decided[r.Task] = true
+				if _, ok := startEpoch[r.Task]; ok && len(specs[r.Task].Writes) > 0 {
+					cur++
+				}
+			}
+			for _, t := range c.Tasks {
+				if decided[t.Name] {
+					continue
+				}
+				if e, ok := startEpoch[t.Name]; ok {
+					now[t.Name] = epochs[e][t.Name]
+				} else {
+					now[t.Name] = epochs[len(epochs)-1][t.Name]
+				}
+			}
 			if rr.err != nil && strings.HasPrefix(rr.err.Error(), "harness:") {
 				return &rp.Fail{Sig: "harness", Msg: rr.err.Error()}
 			}
@@ -385,6 +473,10 @@ func execCache(id string, s *ev.Shard, root string, c CacheCase) *rp.Fail {
 			for _, t := range c.Tasks {
 				ts := state[t.Name]
 				snap := now[t.Name]
+				if selfModified[t.Name] {
+					ts.unknown = true
+					continue
+				}
 				switch {
 				case t.NCmds > 0 && rr.rec.count[t.Name] > 0:
 					if rr.rec.succeeded(t.Name, t.NCmds) {
